@@ -27,6 +27,9 @@ if mods:
     ck.require_theorems([
         'LbzVerif.Props.C13.Compress.live_le',
         'LbzVerif.Props.C13.Compress.memBound_linear',
+        'LbzVerif.Props.C13.Expand.live_le',
+        'LbzVerif.Props.C13.Expand.memBound_linear',
+        'LbzVerif.Props.C13.Expand.small_objects',
     ])
 exe = ck.build_lbzip2(asan=False)
 shim = ck.cc('mallocshim.so', ['harness/mallocshim.c'], asan=False,
@@ -67,10 +70,41 @@ def bound_compress(n, bs):
     return n * enc + tin * ing + tout * maxblock + SMALL
 
 
+# `Sizes` of Props/C13/Expand.lean (upper bounds for the C objects, LP64)
+Z_EXPAND = {
+    'decBytes': 900000 * 4 + 200 * 1024 + 2 * 1280,  # tt + retriever_internal
+                                        # _state + retr_blk + emit_blk
+    'unordBytes': 72, 'scanBytes': 48, 'ptrBytes': 8, 'headBytes': 24,
+}
+
+
+def mem_bound_expand(z, n, tin, tout):
+    """`memBound z c` of Props/C13/Expand.lean, term by term (c.n = n,
+    c.totalIn = tin, c.totalOut = tout); `live_le` proves
+    liveBytes <= memBound in every reachable non-failed state."""
+    return (z['decBytes'] * n + z['inBytes'] * tin + z['outBytes'] * tout
+            + z['unordBytes'] * (2 * n + tout) + z['scanBytes'] * tin
+            + (z['ptrBytes'] * (2 * tin + 3 * n + 2 * tout)
+               + z['headBytes'] * (n + tout)))
+
+
+def per_worker_expand(z):
+    """`perWorker z` of Props/C13/Expand.lean (`memBound_linear`: with
+    Gen.memExpand the bound is n * perWorker z)."""
+    return (z['decBytes'] + 4 * z['inBytes'] + 16 * z['outBytes']
+            + (18 * z['unordBytes'] + 4 * z['scanBytes']
+               + 43 * z['ptrBytes'] + 17 * z['headBytes']))
+
+
 def bound_expand(n):
+    """memBound of the theorem + SMALL for what the model does not cover
+    (thread descriptors, stdio buffers, libc bookkeeping)."""
     tin, tout, ing, outg = memD(n)
-    dec = 900000 * 4 + 200 * 1024          # tt + retriever_internal_state
-    return n * dec + tin * ing + tout * (outg + 64) + SMALL
+    z = dict(Z_EXPAND, inBytes=ing + 32, outBytes=outg + 64)
+    b = mem_bound_expand(z, n, tin, tout)
+    if (tin, tout) == (4 * n, 16 * n):      # the shape memBound_linear is about
+        assert b == n * per_worker_expand(z), (b, n, per_worker_expand(z))
+    return b + SMALL
 
 
 def run(args, data, n):
